@@ -187,6 +187,11 @@ def _new_queue(eng, st, f, args, kwargs, line):
 OPAQUE_CALL['QueueClass'] = _new_queue
 
 
+@libfn('asyncio.Queue')
+def _asyncio_queue(eng, st, args, kwargs, line):
+    yield from _new_queue(eng, st, None, args, kwargs, line)
+
+
 # ---- clock -----------------------------------------------------------------------------------------
 def advance_clock(eng, st, dt):
     """A yield point: the ghost clock does not go backwards; a timed wait advances it by at most
@@ -383,6 +388,16 @@ def _start_response(eng, st, f, args, kwargs, line):
 
 
 OPAQUE_CALL['StartResponse'] = _start_response
+
+
+def _make_response(eng, st, f, args, kwargs, line):
+    """async driver's make_response(status, headers, body, environ): builds the framework's
+    response object; recorded in the same ghost log as a WSGI start_response call."""
+    for s2, _ in _start_response(eng, st, f, args[:2], {}, line):
+        yield s2, eng.fresh(Opaque('HttpResponse'), 'http_response', s2)
+
+
+OPAQUE_CALL['MakeResponse'] = _make_response
 
 
 def _input_read(eng, st, recv, args, kwargs, line):
@@ -760,12 +775,6 @@ def _lifespan_callback(eng, st, f, args, kwargs, line):
 OPAQUE_CALL['AsgiReceive'] = _asgi_receive
 OPAQUE_CALL['AsgiSend'] = _asgi_send
 OPAQUE_CALL['LifespanCallback'] = _lifespan_callback
-
-
-@libfn('asyncio.iscoroutinefunction')
-def _iscorofn(eng, st, args, kwargs, line):
-    b = z3.Bool(eng.name('iscoro'))
-    yield st, vbool(b)
 
 
 @libfn('open')
